@@ -53,8 +53,46 @@ def _is_symbolic_obj(a):
     return isinstance(a, _np.ndarray) and _rdt(a) == object
 
 
+PROTECTED = []     # (name, array): input arrays under a frame condition (C18); writes that reach their memory are logged
+WRITES = []        # (name, 'file:line function') of every write that touched a protected array
+
+
+def _note_write(target):
+    if not PROTECTED:
+        return
+    for name, arr in PROTECTED:
+        try:
+            hit = target is arr or _np.may_share_memory(target, arr)
+        except Exception:
+            hit = False
+        if hit:
+            import sys as _sys
+            f = _sys._getframe(2)
+            site = "?"
+            while f is not None:
+                fn = f.f_code.co_filename
+                if "/PyMatterSim/" in fn:
+                    site = f"{fn.split('/PyMatterSim/')[-1]}:{f.f_lineno} {f.f_code.co_name}"
+                    break
+                f = f.f_back
+            if site != "?":           # writes made by the harness itself (building inputs) are not the code under test
+                WRITES.append((name, site))
+
+
 class CArr(_np.ndarray):
     """concrete (int/bool/float) ndarray that accepts symbolic boolean masks / constant proxies as indices"""
+
+    def _inplace(name):
+        def f(self, o):
+            _note_write(self)
+            return getattr(_np.ndarray, name)(self, o)
+        f.__name__ = name
+        return f
+
+    for _n in ("__iadd__", "__isub__", "__imul__", "__itruediv__", "__ifloordiv__", "__imod__", "__ipow__", "__iand__", "__ior__",
+               "__ixor__"):
+        locals()[_n] = _inplace(_n)
+    del _n, _inplace
 
     def __array_wrap__(self, arr, context=None, return_scalar=False):
         if arr.ndim == 0:
@@ -65,6 +103,7 @@ class CArr(_np.ndarray):
         return _np.ndarray.__getitem__(self, _concretize_key(key))
 
     def __setitem__(self, key, value):
+        _note_write(self)
         key = _concretize_key(key)
         if isinstance(value, SR):
             if not value.is_const():
@@ -100,6 +139,9 @@ class SArr(_np.ndarray):
     def __array_ufunc__(self, ufunc, method, *inputs, out=None, **kwargs):
         ins = tuple(x.view(_np.ndarray) if isinstance(x, SArr) else x for x in inputs)
         if out is not None:
+            for o in out:
+                if isinstance(o, _np.ndarray):
+                    _note_write(o)
             kwargs["out"] = tuple(x.view(_np.ndarray) if isinstance(x, SArr) else x for x in out)
         if method == "__call__":
             if ufunc in _CMP:
@@ -131,6 +173,7 @@ class SArr(_np.ndarray):
         return res
 
     def __setitem__(self, key, value):
+        _note_write(self)
         key = _concretize_key(key)
         if isinstance(value, _np.ndarray) and _rdt(value) == object:
             pass
@@ -869,9 +912,20 @@ def linalg_eig(m):
         deps = set()
         for v in m.ravel():
             deps |= lift_strict(v).atomset()
+        # eig is a function of the matrix: structurally equal matrices get the same (sorted) eigenvalue symbols
+        ckey = ("eig3",) + tuple(lift_strict(v).key() for v in m.ravel())
+        hit = S.REG.fn_cache.get(ckey)
+        if hit is not None:
+            out = _np.empty(3, dtype=object)
+            for i, v in enumerate(hit):
+                out[i] = v
+            r = out.view(SArr)
+            r._dt = _np.dtype(float)
+            return r, None
         atoms = [S.REG.new_atom(f"eig!{len(S.REG.atoms)}", "eig", data=(mm, k), fe=fe_k(k), deps=deps) for k in builtins.range(3)]
         S.REG.uninterpreted += 1
         l0, l1, l2 = [SR.atom(a.idx) for a in atoms]
+        S.REG.fn_cache[ckey] = (l0, l1, l2)
         for rel in ((l0 + l1 + l2) == tr, (l0 * l1 + l0 * l2 + l1 * l2) == c2, (l0 * l1 * l2) == det, l0 <= l1, l1 <= l2):
             if isinstance(rel, SB):
                 for a in atoms:
